@@ -232,8 +232,9 @@ def reused_module(make, make_sibling, warm):
     """A module that has a past: built for a sibling wavelet of the same filter length, used once (warm(m)), then
     given the right filters through load_state_dict. Anything cached per module / per buffer address during the
     first life must not leak into the second."""
+    from pwv import core
     m = make_sibling()
-    warm(m)
+    core.libcall(warm, m)       # ordinary use of the library: an exception here is the library's
     m.load_state_dict(make().state_dict())
     return m
 
